@@ -135,3 +135,37 @@ def close(a, b, rtol=1e-9, atol=1e-12) -> bool:
     if np.isinf(fa) or np.isinf(fb):
         return fa == fb
     return abs(fa - fb) <= atol + rtol * max(abs(fa), abs(fb))
+
+
+# ----------------------------------------------------------------------------------------
+# shape features (independent formulas; skimage only for the primitives it defines)
+# ----------------------------------------------------------------------------------------
+def inertia_axes_3d(mask: np.ndarray, spacing) -> tuple[float, float, float] | None:
+    """Radii of the ellipsoid with the same principal moments as the voxel set, from the
+    eigenvalues of the inertia tensor (numpy.linalg.eigvalsh). None when the shape is
+    degenerate (a principal-moment combination is not safely positive)."""
+    sp = (1.0, 1.0, 1.0) if spacing is None else tuple(float(x) for x in spacing)
+    idx = np.nonzero(mask)
+    n = len(idx[0])
+    if n == 0:
+        return None
+    c = [(a - a.mean()) * s for a, s in zip(idx, sp)]
+    z, y, x = c
+    t = np.array([
+        [np.sum(y * y + z * z), -np.sum(x * y), -np.sum(x * z)],
+        [-np.sum(x * y), np.sum(x * x + z * z), -np.sum(y * z)],
+        [-np.sum(x * z), -np.sum(y * z), np.sum(x * x + y * y)],
+    ])
+    lo, mid, hi = np.linalg.eigvalsh(t)  # ascending
+    combos = (mid + hi - lo, hi + lo - mid, lo + mid - hi)
+    scale = max(hi, 1e-300)
+    if min(combos) <= 1e-7 * scale:
+        return None
+    return tuple(float(np.sqrt(2.5 * v / n)) for v in combos)
+
+
+def shape3d_defined(mask: np.ndarray, spacing) -> bool:
+    """Are the 3D shape features (surface by marching cubes, inertia axes) defined?"""
+    if not mask.any() or mask.all():
+        return False  # marching cubes needs the 0.5 level inside the data range
+    return inertia_axes_3d(mask, spacing) is not None
